@@ -62,7 +62,10 @@ def h_resume(B, kind, strategy):
     finally:
         sc.Ctx.cur = saved_ctx
     k = B.pick("crash_at", 0, nops - 1)
-    variant = ("before", "truncated")[B.pick("variant", 0, 1)]
+    variant = ("before", "truncated", "after")[B.pick("variant", 0, 2)]
+    is_open = oplog[k].split(":", 2)[1].startswith("open")
+    if (variant == "truncated" and not is_open) or (variant == "after" and is_open):
+        B.assume(False)                      # variant not applicable to this kind of operation
     B.note(f"{nops} file-system mutations; killed at {oplog[k]} ({variant})")
     site = oplog[k].split(":", 1)[1].replace(":ref/", " ")
     import re as _re
@@ -121,7 +124,7 @@ OPTS = {"quick": {"max_paths": 2000, "budget_s": 900, "jobs": 6, "branch_timeout
 META = {
     "level": "other",
     "explanation": "The real classic optimize_kl (MAP, MGVI and mixed schedules, 3 global iterations, save strategies 'all' and 'latest') "
-                   "is killed at every file-system mutation it performs (before the operation and after a create/truncate), the crash "
+                   "is killed at every file-system mutation it performs (before the operation, after a create/truncate, right after a remove / replace; buffered data of open files is lost), the crash "
                    "point being a symbolic integer concretised by solver-decided forking; the run is restarted with resume=True in a "
                    "fresh process state and compared bit for bit with the uninterrupted run.  Concrete float64 runs: the solver's role is "
                    "the exploration of the crash-point space.",
